@@ -38,6 +38,10 @@ pub static mut TAB: Table = Table {
     nd: 0,
 };
 
+/// Native builds only: real block cipher behind the oracle (key id, input block, block size, forward).
+#[cfg(not(kani))]
+pub static mut NATIVE: Option<fn([u8; 2], &[u8; MAXB], usize, bool) -> [u8; MAXB]> = None;
+
 /// Output preset for the NEXT oracle call (then cleared).  Restricts the quantified cipher family
 /// to those mapping that call's input to the preset value; used only where a symbolic value would
 /// make control flow symbolic (BelT-CTR's s0 = E(IV) inside the byte-level wrapper, whose
@@ -108,11 +112,17 @@ pub fn apply(key: [u8; 2], inp: &[u8; MAXB], n: usize, forward: bool) -> [u8; MA
     }
     #[cfg(not(kani))]
     {
-        // native build (cargo check only): a fixed toy permutation so the crate links
-        let mut i = 0;
-        while i < n {
-            fresh[i] = if forward { inp[i].wrapping_add(key[0]) ^ key[1] } else { (inp[i] ^ key[1]).wrapping_sub(key[0]) };
-            i += 1;
+        // native build: a real cipher installed by the self-test (tests/spec_vectors.rs), else a toy
+        // bytewise permutation so that the crate links
+        #[allow(static_mut_refs)]
+        if let Some(f) = unsafe { NATIVE } {
+            fresh = f(key, inp, n, forward);
+        } else {
+            let mut i = 0;
+            while i < n {
+                fresh[i] = if forward { inp[i].wrapping_add(key[0]) ^ key[1] } else { (inp[i] ^ key[1]).wrapping_sub(key[0]) };
+                i += 1;
+            }
         }
     }
     #[allow(static_mut_refs)]
@@ -129,6 +139,13 @@ pub fn apply(key: [u8; 2], inp: &[u8; MAXB], n: usize, forward: bool) -> [u8; MA
             j += 1;
         }
     }
+    #[cfg(not(kani))]
+    {
+        let _ = (&x, &y, &t);
+        return fresh;
+    }
+    #[allow(unreachable_code)]
+    {
     assert!(t.n < CAP, "oracle capacity");
     t.k[t.n] = key;
     t.x[t.n] = x;
@@ -138,6 +155,7 @@ pub fn apply(key: [u8; 2], inp: &[u8; MAXB], n: usize, forward: bool) -> [u8; MA
         t.nd += 1;
     }
     fresh
+    }
 }
 
 /// Handle on the permutation selected by `key`, for the reference models.
